@@ -156,3 +156,32 @@ def register(reg):
         loops={0: {"inv": ["I_h(self)", "has_key(self, key)", "forall(0, _i + 1, lambda j: clean(values[j]))"],
                    "modifies": ["self._list"]}},
     )
+
+    # ---- readers by key
+    reg.contract(
+        "werkzeug/datastructures/headers.py:Headers.get", prop=P, self_model=H, modifies=[], replay="method",
+        params={"key": "str", "default": "Optional[str]", "type": "none"}, returns="Optional[str]",
+        ensures=["implies(has_key(self, key), result is not None and first_is(self, key, result))",
+                 "implies(not has_key(self, key), result == default)"],
+        raises={},
+    )
+    reg.contract(
+        "werkzeug/datastructures/headers.py:Headers.getlist", prop=P, self_model=H, modifies=[], replay="method",
+        params={"key": "str", "type": "none"}, returns="List[str]",
+        ensures=[
+            # exactly the values of the pairs with that key (any letter case): each result is such a value ...
+            "forall(0, len(result), lambda i: exists(0, len(self._list), lambda j: hkey(self, j) == key.lower() and "
+            "       result[i] == self._list[j][1], witness=lambda: ghost_filt_src(i)))",
+            # ... and none is missing
+            "forall(0, len(self._list), lambda j: implies(hkey(self, j) == key.lower(), "
+            "       exists(0, len(result), lambda i: result[i] == self._list[j][1], witness=lambda: ghost_filt_dst(j))))",
+            "len(result) <= len(self._list)",
+        ],
+        raises={},
+    )
+    reg.contract(
+        "werkzeug/datastructures/headers.py:Headers.pop#str", prop=P, self_model=H, modifies=["self._list"], raise_modifies=[], replay="method",
+        params={"key": "str"}, returns="str",
+        ensures=["first_is(old(self), key, result)", "not has_key(self, key)", "len(self._list) <= len(old(self._list))"],
+        raises={"BadRequestKeyError": "not has_key(self, key)"},
+    )
